@@ -25,6 +25,8 @@ def run(ctx):
     V.v6_derived_constructors(ctx)
     V.v8_queries_do_not_mutate_constructor_state(ctx)
     U.u7_parameter_ranges(ctx)
+    U.u8_absent_statistic_pinned(ctx)
+    ctx.floor("U8", 2)
     ctx.floor("U7", 3)
     # the sampled parts are put together by the backward maps of the derived rule forms
     from ..engines import mapplumbing as M
